@@ -495,6 +495,18 @@ def mode_params_rule(ctx, rule):
                                '`%s`' % norm(st)[:80], m.loc(st))
     ctx.ob(rule, 'write-path:mode-parameters-never-rebound', True, '%d rebinding(s) of %s found' % (n, list(MODE_PARAMS)), '')
     f = wr.func('convert')
+    # a float frame cast to an integer column: NaN / fractions are refused, not cast
+    cfgc = CFG(f)
+    casts = [st for st in iter_child_stmts(f.body) if isinstance(st, ast.Assign) and 'astype(revmap[type]' in norm(st.value)
+             and any(norm(e.test) == 'dtype.name in typemap' for e, fld in cfgc.enclosing_tests(st) if isinstance(e, ast.If))]
+    okc = False
+    for st in casts:
+        blk = [b for b in _blocks_of(f.body) if any(x is st for x in b)]
+        pre = blk[0][:[i for i, x in enumerate(blk[0]) if x is st][0]] if blk else []
+        okc = okc or any(isinstance(x, ast.If) and "dtype.kind == 'f'" in norm(x.test) and any(isinstance(r, ast.Raise) for r in ast.walk(x))
+                         and ('isfinite' in norm(x) and 'trunc' in norm(x)) for x in pre)
+    ctx.ob(rule, 'writer.convert:lossy-float-to-integer-cast-refused', okc,
+           'astype(int) turns NaN into the smallest integer and cuts fractions off; reached when a float frame is appended to an integer column', wr.loc(f))
     subs = [x for x in walk_no_nested(f) if isinstance(x, ast.Subscript) and norm(x.value) == 'revmap']
     tdef = [st for st in f.body if isinstance(st, ast.Assign) and norm(st.targets[0]) == 'type']
     ok_def = len(tdef) == 1 and norm(tdef[0].value) == 'se.type'
@@ -503,3 +515,16 @@ def mode_params_rule(ctx, rule):
         ctx.ob(rule, 'writer.convert:cast-target-follows-the-schema-element:%s' % norm(x)[:30], ok_def and norm(x.slice) in ('type', 'se.type'),
                '`%s` with type = %s: the chunk is declared with the schema element\'s physical type; casting to anything else '
                'writes bytes of another width into it' % (norm(x), norm(tdef[0].value) if tdef else '?'), wr.loc(x))
+
+
+def _blocks_of(stmts):
+    yield stmts
+    for st in stmts:
+        if isinstance(st, (ast.FunctionDef, ast.AsyncFunctionDef, ast.ClassDef)):
+            continue
+        for fld in ('body', 'orelse', 'finalbody'):
+            sub = getattr(st, fld, None)
+            if isinstance(sub, list) and sub:
+                yield from _blocks_of(sub)
+        for h in getattr(st, 'handlers', []) or []:
+            yield from _blocks_of(h.body)
